@@ -7,6 +7,7 @@ import QecVerif.Model.DriverC09
 import QecVerif.Model.DriverApp
 import QecVerif.Model.DriverC19
 import QecVerif.Model.DriverSmwpm
+import QecVerif.Model.DriverC10RotatedPlanar
 import QecVerif.Model.DriverC17
 import QecVerif.Model.DriverC16
 import QecVerif.Model.DriverC14
@@ -39,6 +40,7 @@ def dispatch (line : String) : String :=
   | "c18" :: rest => (c18 rest).getD "bad-op"
   | "c19" :: rest => (c19 rest).getD "bad-op"
   | "smwpm" :: rest => (smwpm rest).getD "bad-op"
+  | "c10rplanar" :: rest => (c10rplanar rest).getD "bad-op"
   | "c17" :: rest => (c17 rest).getD "bad-op"
   | "c16" :: rest => (c16 rest).getD "bad-op"
   | "c14" :: rest => (c14 rest).getD "bad-op"
